@@ -21,7 +21,7 @@ from mc import bootstrap, core
 from mc.refs import relmodel, schemas, sqlmodel
 
 NEEDS_BRIDGEPOINT = False
-BUDGET_S = {'quick': 300, 'thorough': 2400}
+BUDGET_S = {'quick': 3600, 'thorough': 14400}
 ASSUMPTIONS = [
     'persistable domain: referential values resolve or are null; identifying values of non-nullable types (integer, real, '
     'boolean) avoid the serialised null when an unlinked referring instance exists; no inf/nan; names do not lex as '
